@@ -11,15 +11,15 @@ E1_NOTE = "Trusted base: the harness's transliteration of the per-transaction se
 CHECKS = {
     "C01": ("txn-mc", "model_checking",
             "explicit-state BFS to closure over event histories; every transition calls the real SendTransaction/RecvTransaction handlers; monitor on every Finished indication",
-            "All reachable states of the real sender/receiver pair under an adversarial link (drop, duplicate, overtake, delay past a timer, payload corruption with CRC on) with a shared fault pool F=1 (quick) / F=2 (thorough), both modes, closure on/off, deferred/immediate NAK with and without delay, Modular/Null checksum, contents chosen to be checksum-neutral in the first/middle/last segment; at every success indication of either entity and in every terminal state the destination file must equal the source.",
+            "All reachable states of the real sender/receiver pair under an adversarial link (drop, duplicate, overtake, delay past a timer, payload corruption with CRC on) with a shared fault pool F=1 (quick) / F=2 (thorough), both modes, closure on/off, deferred/immediate NAK with and without delay, Modular/Null checksum, contents chosen to be checksum-neutral in the first/middle/last segment, a stale longer file pre-existing under the destination name, 3-segment files with reordering; at every success indication of either entity and in every terminal state the destination file must equal the source.",
             E1_NOTE, "DESIGN.md section 4 C01"),
     "C02": ("txn-mc", "model_checking",
             "explicit-state BFS to closure over the real handlers; terminal-state oracle plus deadlock and cycle (livelock) detection on the state graph",
-            "Acknowledged mode, every placement of up to F faults (drop/duplicate/overtake/delay; F=1, F=2 on small files quick; F=2 everywhere and F=3 drops-only with limit 4 thorough) over all PDUs of both directions, sizes 0,1,seg-1,seg,seg+1,2seg,(3seg-1), four NAK procedures, CRC variant: every terminal state must have destination == source, receiver and sender success indications, both transactions ended; no deadlock, no cycle.",
+            "Acknowledged mode, every placement of up to F faults (drop/duplicate/overtake/delay; F=1 everywhere, F=2 on small files of the deferred and immediate procedures quick; F=2 everywhere and F=3 drops-only with limit 4 thorough) over all PDUs of both directions, sizes 0,1,seg-1,seg,seg+1,2seg,(3seg-1), four NAK procedures, CRC variant: every terminal state must have destination == source, receiver and sender success indications, both transactions ended; no deadlock, no cycle.",
             E1_NOTE, "DESIGN.md section 4 C02"),
     "C03": ("txn-mc", "model_checking",
             "explicit-state BFS to closure with blackout as an ordinary event (placed before/after every PDU), graph conditions: no deadlock state, no cycle, time bound per path",
-            "Blackout of either/both directions at every state of the exchange, plus independently the C02 fault pool; both modes, closure, NAK procedures, max_count 2 (and 3 thorough), default and Abandon handlers: no Active transaction is ever left without an enabled event (deadlock), the time-abstract state graph is acyclic (no livelock), and every transaction ends within (max_count+1)*(inactivity+ack+nak) virtual seconds after the last PDU delivered to it.",
+            "Blackout of either/both directions at every state of the exchange, alone, combined with one fault (drop/dup/delay), combined with a user cancel at either entity and one fault, and with a NAK prompt at any state; plus independently the C02 fault pool; both modes, closure, NAK procedures, max_count 2 (and 3 thorough), default and Abandon handlers: no Active transaction is ever left without an enabled event (deadlock), the time-abstract state graph is acyclic (no livelock), and every transaction ends within (max_count+1)*(inactivity+ack+nak) virtual seconds after the last PDU delivered to it.",
             E1_NOTE + " The daemon-level clause (keeps serving other transactions) is part of C11's daemon-dbx runs.", "DESIGN.md section 4 C03"),
     "C04": ("txn-mc", "model_checking",
             "explicit-state BFS to closure with straggler re-delivery of every PDU ever sent, armed from the receiver's first success indication",
@@ -31,7 +31,7 @@ CHECKS = {
             E1_NOTE + " Inverted ranges (start > end) are not in the alphabet: the property does not list them.", "DESIGN.md section 4 C07"),
     "C08": ("txn-mc", "model_checking",
             "explicit-state BFS to closure with drops-only pools large enough for every loss subset; fill-time oracle on the receiver's request queue (hook H3) and per-PDU well-formedness",
-            "Every subset of lost metadata/data segments for files of 0..2 (3 thorough) segments, EOF first / data after EOF / duplicated EOF / one prompt under F faults, four NAK procedures, segment size 16 (one request per NAK PDU): each NAK request non-empty or the marker, inside scope and file, PDU within the configured size, no unsolicited NAK before EOF (deferred), new gaps requested at once or after the delay (immediate), and whenever the request list is computed after EOF it equals exactly the bytes not yet delivered (+marker iff metadata missing); the receiver never finishes while something is missing.",
+            "Every subset of lost metadata/data segments for files of 0..2 (3 thorough) segments, EOF first / data after EOF / duplicated EOF / one prompt under F faults, four NAK procedures, segment size 16 (one request per NAK PDU) and 20/28 (capacity not a multiple of the request size, several separate gaps): each NAK request non-empty or the marker, inside scope and file, PDU within the configured size, no unsolicited NAK before EOF (deferred), new gaps requested at once or after the delay (immediate), and whenever the request list is computed after EOF it equals exactly the bytes not yet delivered (+marker iff metadata missing); the receiver never finishes while something is missing.",
             E1_NOTE, "DESIGN.md section 4 C08"),
     "C10": ("txn-mc", "model_checking",
             "explicit-state BFS to closure with one user cancel placed at every state, at either entity",
@@ -59,7 +59,7 @@ CHECKS = {
             "Length- and alphabet-bounded; two pruning rules (documented with their soundness argument in en_decode.rs) skip strings whose outcome is determined by a shorter prefix.", "DESIGN.md section 4 C06"),
     "C11": ("daemon-dbx", "model_checking",
             "deviation-bounded exhaustive scheduling of 2-3 real Daemon tasks (CHESS-style iterative bounding over take/deliver/drop/advance/user/stray choices) with per-transaction differential twins driven by the observed loop steps (hook H5)",
-            "Real daemons A, B (C thorough) with really spawned transaction tasks on a paused clock; T1 A->B acknowledged, T2 B->A unacknowledged with the same sequence number, T3 sharing A's transport slot; every schedule with <= 2 (quick) / 3 (thorough) deviations from the default, deviations being cross-transaction reordering, drops, overtaking, stray PDUs (responses for senders that do not exist, an entity without transport, file data for an unknown id, replays of delivered PDUs) at any point: Put ids distinct, each transaction's PDUs, indications, destination file and termination equal those of its isolated twin, daemons keep running and answering Report/Put after every stray, stray-started receivers end by their limits. The same runs validate E1's loop model against the real select! loops (single-transaction conformance).",
+            "Real daemons A, B (C thorough) with really spawned transaction tasks on a paused clock; T1 A->B acknowledged, T2 B->A unacknowledged with the same sequence number, T3 sharing A's transport slot, three Puts with the sequence counter starting at U8(254); every schedule with <= 2 (quick) / 3 (thorough) deviations from the default, deviations being cross-transaction reordering, drops, overtaking, stray PDUs (responses for senders that do not exist, an entity without transport, file data for an unknown id, replays of delivered PDUs, PDUs reflected back to the daemon that sent them) at any point: Put ids distinct, each transaction's PDUs, indications, destination file and termination equal those of its isolated twin, daemons keep running and answering Report/Put after every stray, stray-started receivers end by their limits. The same runs validate E1's loop model against the real select! loops (single-transaction conformance).",
             "Tens of transactions are not reached: 3 transactions, 3 daemons. A transaction sends as soon as its slot is free and time does not pass while a slot is full. Twin divergence in single-transaction scenarios is reported as machinery error (MODEL-DIVERGENCE), in multi-transaction scenarios as isolation violation.", "DESIGN.md section 4 C11"),
     "C12": ("enum", "exploration",
             "bounded exhaustive enumeration of path names over a component alphabet for every filestore entry point; lexical oracle with an independent resolver plus before/after snapshot of everything outside the root",
@@ -67,7 +67,7 @@ CHECKS = {
             "The harness's own path resolver and snapshot are trusted; operations whose effective path lies outside the jail are not executed (the harness runs as root) but reported. Symlinks are not part of the alphabet.", "DESIGN.md section 4 C12"),
     "C13": ("seq-mc", "model_checking",
             "explicit-state BFS over filestore states: every transition is the real NativeFileStore::process_request on a re-materialised tree, compared with a pure reference model; plus txn-mc scenarios carrying request lists",
-            "Dispatcher: from every consistent tree over the namespace {f1,f2,d1,d1/f3,d2} all nine actions x first x second name (incl. a missing name and the empty name) to depth 2 (quick) / 3 (thorough): status code, echoed names and the whole resulting tree must equal the reference, a failed request changes nothing. Transaction level (txn-mc): request lists with a non-idempotent append under the C02/C04 fault budgets: no effect before the success indication, each effect once, in order, not-performed after the first failure or when delivery failed, same responses in the receiver's indication, the Finished PDU and the sender's indication.",
+            "Dispatcher: from every consistent tree over the namespace {f1,f2,d1,d1/f3,d2} all nine actions x first x second name (incl. a missing name and the empty name) to depth 2 (quick) / 3 (thorough): status code, echoed names and the whole resulting tree must equal the reference, a failed request changes nothing. Transaction level (txn-mc): request lists [create, append (non-idempotent), delete-missing (fails), rename] under the C02/C04 fault budgets, under a receiver cancel, and under losses the checksum cannot see (Null checksum, zero content) in unacknowledged mode: no effect before the success indication, each effect once, in order, not-performed after the first failure or when delivery failed, same responses in the receiver's indication, the Finished PDU and the sender's indication.",
             "Reference semantics follow the repository's own process_failures tests where CFDP and the code differ; seven classes the statement leaves open are listed under coverage.unconstrained_cases and never flagged.", "DESIGN.md section 4 C13"),
     "C14": ("enum", "exploration",
             "bounded exhaustive enumeration of contents, lengths and read-chunk schedules against the checksum definition written naively",
